@@ -63,6 +63,7 @@ if os.path.exists(g):
     for (i, res, scope) in cg['left']:
         why = open(f'{V}/notes/left_{i}.txt').read().strip() if os.path.exists(f'{V}/notes/left_{i}.txt') else scope
         gl.append(f"* **{i}** ({'outside the property' if scope else res}): {why}")
+    t = t.replace('@GRULES@', open(f'{V}/notes/round_g_rules.md').read().strip())
     t = t.replace('@GLEFT@', "\n".join(gl) if gl else '(none)')
     s = s.replace('### 16.7 Numbers', t + '\n### 16.7 Numbers')
 d = open(f'{V}/DESIGN.md').read()
